@@ -148,6 +148,11 @@ KANI_RANGES_MULTIPLE = {
 }
 
 PROPS = {
+    "C20": {
+        "level": "proof",
+        "verus": ["c20_datakey"],
+        "kani": [],
+    },
     "C05": {
         "level": "proof",
         "verus": ["c05_plural_select"],
